@@ -35,7 +35,7 @@ func (c10) Meta() fw.Meta {
 			"values are chosen so that floating-point addition is exact: the property is about WHICH values are added, not about association order",
 			"directory names contain no dots (items are dotted paths)",
 		},
-		Obligations: []string{"function_sums", "cli_sums", "slots_summed", "slot_all_nan", "slot_single_contributor", "first_file_hole", "single_file_item", "layout_mismatch_rejected", "no_match_item", "no_match_file", "unclean_base_spelling", "single_archive_selection", "edge_window", "file_pattern_with_directory"},
+		Obligations: []string{"function_sums", "cli_sums", "slots_summed", "slot_all_nan", "slot_single_contributor", "first_file_hole", "single_file_item", "layout_mismatch_rejected", "no_match_item", "no_match_file", "unclean_base_spelling", "single_archive_selection", "edge_window", "file_pattern_with_directory", "remote_sums", "slow_first_item_runs"},
 		Workers:     12,
 	}
 }
@@ -273,6 +273,42 @@ func (c10) Run(c *fw.Ctx) {
 			c.Count("single_file_item", 1)
 		}
 	}
+	// the same sums through a real server, with item and file names that need escaping in the query
+	if u, served, ok := workerServer(c); ok && c.Index%2 == 0 {
+		name := fmt.Sprintf("c10-%d", c.Index)
+		link := filepath.Join(served, name)
+		os.Symlink(vt.Base, link)
+		defer os.Remove(link)
+		odd := sumTree{Base: vt.Base, L: l, Items: map[string][]string{"cpu+load&x": nil}, Now: vnow}
+		for _, fn := range []string{"a+b.wsp", "c d.wsp", "e&f.wsp"} {
+			writeFixture(filepath.Join(vt.Base, "cpu+load&x", fn), l, genContent(r, l, vnow, 0.6), vnow)
+			odd.Items["cpu+load&x"] = append(odd.Items["cpu+load&x"], fn)
+		}
+		sort.Strings(odd.Items["cpu+load&x"])
+		for _, q := range []struct{ item, pat string }{{"cpu+load&x", "*.wsp"}, {"cpu+load&x", "a+*.wsp"}, {"grpA", "*.wsp"}} {
+			tree := vt
+			if q.item == "cpu+load&x" {
+				tree = odd
+				if q.pat == "a+*.wsp" {
+					tree = sumTree{Base: vt.Base, L: l, Items: map[string][]string{q.item: {"a+b.wsp"}}, Now: vnow}
+				}
+			}
+			want, _ := expectedSum(tree, q.item, -1, 0, vnow, vnow, c)
+			_, got, err := wcmd.VerifSumWhisperFile(u, name+"."+q.item, q.pat, -1, 0, u32(vnow), u32(vnow))
+			c.Count("remote_sums", 1)
+			det := fw.J{"item": q.item, "pattern": q.pat, "via": "server"}
+			if err != nil {
+				c.Violationf("remote-sum-error", det, "sum of item %q pattern %q through the server failed: %v", q.item, q.pat, err)
+				break
+			}
+			for ai := range l.Archs {
+				if msg := seriesEqual(got[ai], want[ai]); msg != "" {
+					c.Violationf("sum-differs", det, "remote sum of item %q pattern %q archive %d differs: %s", q.item, q.pat, ai, msg)
+					break
+				}
+			}
+		}
+	}
 	// nothing matched => not-exist
 	if _, _, err := wcmd.VerifSumWhisperFile(vt.Base, "grpA", "zz*.wsp", -1, 0, u32(vnow), u32(vnow)); err == nil || !os.IsNotExist(err) {
 		c.Violationf("no-match-not-notexist", fw.J{"err": fmt.Sprint(err)}, "a file pattern matching nothing gave %v, want an error satisfying os.IsNotExist", err)
@@ -371,6 +407,22 @@ func (c10) Run(c *fw.Ctx) {
 			from = 1
 		}
 		args = append(args, "-from", tsArg(from), "-until", tsArg(until))
+	}
+	if c.Index%3 == 1 && from == 0 {
+		// the first item is slow (its first file is locked by another handle for a moment): later items are
+		// summed at a later clock, and each item's window must end at ITS clock
+		if matched, _ := filepath.Glob(filepath.Join(wtBase, itemPat)); len(matched) >= 2 {
+			if files, _ := filepath.Glob(filepath.Join(matched[0], "*.wsp")); len(files) > 0 {
+				hold, err := wt.Open(files[0])
+				if err == nil {
+					go func() {
+						time.Sleep(time.Duration(1100+r.Intn(900)) * time.Millisecond)
+						hold.Close()
+					}()
+					c.Count("slow_first_item_runs", 1)
+				}
+			}
+		}
 	}
 	res := runCLI(c, args...)
 	det := fw.J{"run": res.brief(), "layout": l, "tree": wtree.Items}
